@@ -61,6 +61,16 @@ macro_rules! field_probe {
                 }
                 cx.eq("From<u128>", &d1, to(&<$T>::from({ let lo: N = a % (n(1) << 128); lo.iter_u64_digits().enumerate().fold(0u128, |acc: u128, (k, w): (usize, u64)| acc | ((w as u128) << (64 * k))) })), (a % (n(1) << 128)) % &p);
                 cx.eq("From<u64>", &d1, to(&<$T>::from({ let lo: N = a % (n(1) << 64); lo.iter_u64_digits().next().unwrap_or(0u64) })), (a % (n(1) << 64)) % &p);
+                // ordering against close neighbours (differences of single bits at limb boundaries)
+                for k in [0usize, 1, 31, 32, 33, 63, 64, 65, 95, 96, 127, 128, 160, 191, 192, 224, 250] {
+                    let b = a + (n(1) << k);
+                    if b >= p { continue; }
+                    let xb = of(&b);
+                    let d = || format!("{} a = {}, b = a + 2^{}", $tag, a, k);
+                    cx.eq("Ord::cmp (neighbours)", &d, xa.cmp(&xb), core::cmp::Ordering::Less);
+                    cx.eq("Ord::cmp (neighbours, reversed)", &d, xb.cmp(&xa), core::cmp::Ordering::Greater);
+                    cx.eq("b - a", &d, to(&(xb - xa)), n(1) << k);
+                }
                 for j in [i, (i * 7 + 3) % nv, (i * 13 + 5) % nv, nv - 1 - i] {
                     let b = &vals[j];
                     let xb = of(b);
